@@ -5,7 +5,6 @@ package main
 import (
 	"fmt"
 	"os"
-	"path/filepath"
 )
 
 // FileFlag is a flag for passing a path to a file on disk. The file is
@@ -23,12 +22,11 @@ func (f *FileFlag) UnmarshalFlag(value string) error {
 		return fmt.Errorf("path '%s' is a directory, not a file", value)
 	}
 
-	abs, err := filepath.Abs(value)
-	if err != nil {
-		return err
-	}
-
-	*f = FileFlag(abs)
+	// Keep the path as it was given and checked. An absolute path made with
+	// filepath.Abs has its ".." elements removed by name, which is not what
+	// the file system does behind a symbolic link: the file read later would
+	// not be the one looked at here.
+	*f = FileFlag(value)
 
 	return nil
 }
